@@ -1,5 +1,6 @@
 import BV.Model.FFI
 import BV.Model.FFIStream
+import BV.Model.FFIEntry
 import BV.Drive.Util
 /-
 Line protocol of the `ffi` engine (leading token `ffi` stripped by `Drive.lean`).
@@ -14,6 +15,17 @@ Line protocol of the `ffi` engine (leading token `ffi` stripped by `Drive.lean`)
   P <init 0|1> <id> <v> BrotliEncoderSetParameter(id, v) on an instance that has (1) / has not (0) been used yet
                         (default parameters otherwise) → 0 | 1   (`ffiSetParameter` of BV/Model/FFIStream.lean)
   O <desired> <0|1>     allocator-opaque index of the 16 slots (1 = caller passed an array) → i0,i1,…,i15 | panic
+  V                     BrotliEncoderVersion() → the constant
+  X <n>                 BrotliEncoderMaxCompressedSize(n) → value (release build)
+  Q <stream_state_ 0..4> <available_out_>
+                        BrotliEncoderIsFinished / BrotliEncoderHasMoreOutput on an instance whose two fields
+                        they read are as given → <is_finished 0|1>:<has_more 0|1>
+  C <input_size> <in null 0|1> <*encoded_size> <out null 0|1> <so.result> <so.finished> <so.total_out> <so bytes hex> <input hex>
+                        BrotliEncoderCompress, given the outcome of the stream phase re-run on a twin encoder
+                        → <ret>:<*encoded_size after | u>:<#bytes>:<fnv of the bytes>:<unwound 0|1>
+  D <quality> <lgwin> <size>
+                        BrotliEncoderSetCustomDictionary(size, …) on a fresh instance with that quality / lgwin:
+                        the fields of the stream machine afterwards → <is_initialized_>:<catable>:<appendable>:<quality>:<lgwin>:<dictionary copied 0|1>
 Addresses are numbers; `n` = null.
 -/
 namespace BV.Drive.FFI
@@ -48,9 +60,46 @@ def handleCall (tok : String) : String :=
     | _ => "bad-op"
   | _ => "bad-op"
 
+def b01 (b : Bool) : String := if b then "1" else "0"
+
+def stateOfCode (c : Nat) : Option BV.Stream.SState :=
+  match c with
+  | 0 => some .processing | 1 => some .flushRequested | 2 => some .finished | 3 => some .metadataHead | 4 => some .metadataBody
+  | _ => none
+
 def handle (args : List String) : String :=
   match args with
   | "S" :: calls => " ".intercalate (calls.map handleCall)
+  | ["V"] => toString ffiVersion
+  | ["X", n] => match n.toNat? with
+    | some n => toString (ffiMaxCompressedSize n)
+    | none => "bad-op"
+  | ["Q", st, av] =>
+    match st.toNat?.bind stateOfCode, av.toNat? with
+    | some st, some av =>
+      let s : BV.Stream.St := { BV.Stream.St.new with streamState := st, pending := List.replicate av 0 }
+      s!"{ffiIsFinished s}:{ffiHasMoreOutput s}"
+    | _, _ => "bad-op"
+  | ["C", n, inull, cap, onull, r, f, t, sob, inp] =>
+    match n.toNat?, cap.toNat?, t.toNat? with
+    | some n, some cap, some t =>
+      let input := hexToBytes inp
+      let mem : Mem := fun _ k => input.take k
+      let c : OneShotCall := { quality := 0, lgwin := 0, mode := 0, inputSize := n, inputPtr := if inull = "1" then none else some 1000000,
+                               encodedSize := cap, outPtr := if onull = "1" then none else some 5000000 }
+      let so : BV.Stored.StreamOutcome := { result := r = "1", finished := f = "1", totalOut := t, bytes := hexToBytes sob }
+      let x := ffiCompress mem c so
+      let fnv := x.bytes.foldl fnvStep fnvInit
+      let sz := match x.encodedSize with | some v => toString v | none => "u"
+      s!"{x.ret}:{sz}:{x.bytes.length}:{fnv}:{b01 x.unwound}"
+    | _, _, _ => "bad-op"
+  | ["D", q, lgwin, size] =>
+    match q.toNat?, lgwin.toNat?, size.toNat? with
+    | some q, some lgwin, some size =>
+      let s0 := (BV.Stream.setParameter (BV.Stream.setParameter BV.Stream.St.new 1 q).1 2 lgwin).1
+      let (s, copied) := setCustomDictionaryHead s0 size
+      s!"{b01 s.isInitialized}:{b01 s.params.catable}:{b01 s.params.appendable}:{s.params.quality}:{s.params.lgwin}:{b01 copied}"
+    | _, _, _ => "bad-op"
   | ["P", i, id, v] =>
     match id.toNat?, v.toNat? with
     | some id, some v =>
